@@ -178,7 +178,24 @@ def preprocess_tag_block_spacing(text: str) -> str:
     if not has_tag_only_lines:
         return text
 
+    open_fence: str | None = None  # Fence of the code block we are inside, if any.
     for i, line in enumerate(lines):
+        # Lines inside fenced code blocks are code, not tags or lists: leave them alone.
+        fence_match = re.match(r"^ {0,3}(`{3,}|~{3,})", line)
+        if open_fence is None:
+            if fence_match:
+                open_fence = fence_match.group(1)
+        else:
+            if (
+                fence_match
+                and fence_match.group(1)[0] == open_fence[0]
+                and len(fence_match.group(1)) >= len(open_fence)
+                and line.strip() == fence_match.group(1)
+            ):
+                open_fence = None
+            result_lines.append(line)
+            continue
+
         # Check if we need to add a blank line BEFORE this line
         if i > 0:
             prev_line = lines[i - 1]
